@@ -109,12 +109,19 @@ def run_detect_oracle(outcome, tier, seed):
     # short texts of every format with a multi-byte character at each alignment, under every small fixed read size: wherever
     # a trial stops reading, some schedule ends a read inside a character there
     scheduled = [(d, None) for d in inputs]
+    head = "[%sowner] # who\nid = 1 # a\nn = 2 # b\nk = 3 # c\n"
     for shift in range(4):
         pad = "x" * shift
         for text in ('[%stable]\nk = "\u00e9" # \u20ac comment\nj = 1 # \U0001f600\n' % pad, '%sk = "\u00e9\u20ac"\n# \u00e9\n' % pad,
                      '{"%sk": "\u00e9\u20ac\U0001f600"} [1]' % pad, '%sk: "\u00e9"\n# \u20ac\n---\n- \U0001f600\n' % pad,
                      '# \u00e9%s\n[t]\n"\u20ac" = 1\n' % pad):
             for n in (1, 2, 3, 4, 5, 7):
+                scheduled.append((text.encode(), {"kind": "fixed", "n": n}))
+        # a text that the YAML trial abandons early (a table header, then lines that end in comments) and that goes on with
+        # nothing but multi-byte characters: whatever the trial's look-ahead, some read size ends its last read inside one
+        for body in ("\u00e9" * 120, "\u20ac" * 80, "\U0001f600" * 60, "\u00e9\u20ac\U0001f600" * 30):
+            text = (head % pad) + 's = "' + body + '"\n'
+            for n in (list(range(20, 72, 3 if tier == "quick" else 1))):
                 scheduled.append((text.encode(), {"kind": "fixed", "n": n}))
     reqs, plan = [], []
     hx = lambda b: b.hex() if b else "-"
